@@ -287,6 +287,9 @@ func (app *App) addPrefixToRoute(prefix string, route *Route) *Route {
 	route.Path = prefixedPath
 	route.path = RemoveEscapeChar(prettyPath)
 	route.routeParser = parseRoute(prettyPath, app.customConstraints...)
+	// The prefix may contain parameters of its own: recompute the parameter keys from the
+	// prefixed path exactly as register does, otherwise Route.match never consults the parser.
+	route.Params = parseRoute(prefixedPath, app.customConstraints...).params
 	route.root = false
 	route.star = false
 
